@@ -67,7 +67,7 @@ func runNS(r *Rng, n int, prop string, withRoot bool, mk func() (hackpadfs.FS, f
 				}
 			}
 			if d := snapDiffOS(as, bs); d != "" {
-				fail("tree differs after the step: "+d+" | impl tree: "+snapText(as)+" | os tree: "+snapText(bs), o.Kind+":tree:"+outcome(a))
+				fail("tree differs after the step: "+d+" | impl tree: "+snapText(as)+" | os tree: "+snapText(bs), o.Kind+":tree-"+diffClass(d)+":"+outcome(a))
 				diverged = true // from here on the two worlds are in different states
 			}
 		}
